@@ -7,7 +7,8 @@ PID = 'C02'
 def derive(rec):
     return {'n_exdate_lines': rec.get('n_exdate_lines', 0), 'n_rdate_lines': rec.get('n_rdate_lines', 0), 'n_exdates': len(rec.get('exdates', [])), 'n_rdates': len(rec.get('rdates', [])),
             'n_rules': len(rec.get('rules', [])), 'n_xrules': len(rec.get('xrules', [])), 'zero_duration': rec.get('durkind') == 'none', 'durkind': rec.get('durkind'),
-            'timed': rec.get('ds', [0] * 7)[3] != 255, 'freqs': sorted(set(r['freq'] for r in rec.get('rules', [])))}
+            'timed': rec.get('ds', [0] * 7)[3] != 255, 'freqs': sorted(set(r['freq'] for r in rec.get('rules', []))),
+            'yearly_weekno_interval': any(r['freq'] == 'YEARLY' and r.get('inter', 1) >= 2 and r.get('wk') for r in rec.get('rules', []) + rec.get('xrules', []))}
 
 def second_rule(rnd, ds, freqs):
     """another rule synchronised with the same DTSTART"""
